@@ -1,6 +1,12 @@
 //! verif-harness: property-based testing and fuzzing machinery for jxo-me/anytls-rs.
 //! See /verif/DESIGN.md.
 
+pub mod alloc_guard;
 pub mod engine;
+pub mod gens;
+pub mod lab_mem;
 pub mod props;
 pub mod reference;
+
+#[global_allocator]
+static GLOBAL: alloc_guard::Guard = alloc_guard::Guard;
